@@ -50,7 +50,7 @@ PAIR_CLASSES = ("Network", "InteractingNetworks", "GeoNetwork",
                 "Grid", "EventSeries", "PartialCorrelationClimateNetwork",
                 "HavlinClimateNetwork", "HilbertClimateNetwork",
                 "CoupledClimateNetwork", "EventSeriesClimateNetwork",
-                "InterSystemRecurrenceNetwork")
+                "InterSystemRecurrenceNetwork", "CouplingAnalysis")
 
 
 def all_queries(spec):
